@@ -306,6 +306,9 @@ static std::vector<Cfg> configs(const std::string &planner, bool thorough)
                 thr = {-1, 1e6};
             if (!thorough && map == "empty4" && k != "length")
                 continue;
+            // option variants: the quick tier drives every objective on one map and the direction-sensitive ones on a second
+            if (!thorough && (vpl::find(planner)->flags & vpl::VARIANT) && (map == "empty4" || (map == "maze6" && k != "length" && k != "work")))
+                continue;
             for (double t : thr)
             {
                 Cfg c;
